@@ -20,7 +20,7 @@ import (
 )
 
 const siteHFSTS = "pkg/provisioning/bootguard/hfsts.go:readHFSTSFromPCIConfigSpace"
-const knownNoME = "C05-HFSTS-no-ME-device"
+const knownNoME = "C05-HFSTS-no-ME-device" // repaired by f889c7f; kept as a regression probe
 
 // config offsets of the six host firmware status registers of the ME device (HFSTS1..HFSTS6)
 var hfstsOff = [6]int{0x40, 0x48, 0x60, 0x64, 0x68, 0x6c}
@@ -562,7 +562,7 @@ func runPlatform(c *gal.Ctx, p platform, v int, tb, tk, ti uint8, ii imageInfo) 
 		case got.Panic:
 			c.OracleFail(idx, name+" panicked: "+got.Msg, siteHFSTS, d)
 		case got.OK && me < 0 && !p.EnumErr && zeroAgrees:
-			c.OracleFailKnown(idx, knownNoME, name+" reports success on a platform without ME device: the all-zero status GetHFSTS6 makes up agrees with manifests whose SVNs and key manifest id are 0", siteHFSTS, d)
+			c.OracleFail(idx, name+" reports success on a platform without ME device: an all-zero status made up by GetHFSTS6 agrees with manifests whose SVNs and key manifest id are 0 (repaired finding "+knownNoME+" is back)", siteHFSTS, d)
 		case got.OK:
 			c.OracleFail(idx, fmt.Sprintf("%s reports success (%+v) although the status of the ME device is not available (ME device: %v)", name, got, d["meDevice"]), siteHFSTS, d)
 		case !got.E1 && !got.E2:
@@ -622,7 +622,7 @@ func runPlatform(c *gal.Ctx, p platform, v int, tb, tk, ti uint8, ii imageInfo) 
 			c.OracleFail(idx, fmt.Sprintf("%s reports the status word %#x, held by %s; the ME is %s (first device 16/22 function 0 in enumeration order), its register at %#x holds %#x",
 				name, q.got.Word, p.whose(q.n, q.got.Word, q.mask), p.Devs[me].bdf(), hfstsOff[q.n-1], p.Devs[me].word(q.n)&q.mask), siteHFSTS, d)
 		case !avail && !q.got.Err && me < 0 && !p.EnumErr && q.got.Word == 0:
-			c.OracleFailKnown(idx, knownNoME, fmt.Sprintf("%s on a platform without ME device (no visible device 16/22 function 0) returns an all-zero status and no error", name), siteHFSTS, d)
+			c.OracleFail(idx, fmt.Sprintf("%s on a platform without ME device (no visible device 16/22 function 0) returns an all-zero status and no error (repaired finding %s is back)", name, knownNoME), siteHFSTS, d)
 		case !avail && !q.got.Err:
 			why := "the config space of the ME device cannot be read"
 			if me < 0 {
